@@ -82,6 +82,15 @@ def run(prop: str, tier: str) -> int:
     for i, s in enumerate(seeds):
         jobs.append(({"src": SRC, "proc": f"seed{s}-{i}", "walk": (i * 7 + 1) if i % 2 else -1, "cfgs": cfgs, "inputs": hx,
                       "ks": [10] if tier == "quick" else [10, 1, 2], "mode": "seq"}, s))
+    # the same configurations built in opposite orders within one process each (a configuration is identified by its
+    # contents: keyword directory, include list, exclude list), and twice in a row
+    rich = [x.hex() for x in drivers.PAYLOADS + list(drivers.nested(rng, 6, 3)) + [b"cmd /c p^owershell -e ZQBjAGgAbwAgAGIAZQBlAA== & echo 6576696c2e636f6d2f6d616c77617265"]]
+    cfgs2 = {"no-network": {"exclude": ["network"]}, "default": "", "only-b64-hex": {"include": ["base64", "hex"]},
+             "custom-no-shell": {"dir": cdir, "exclude": ["shell"]}, "custom": cdir, "default-again": ""}
+    alias = {"default-again": "default"}
+    for rev in (False, True):
+        jobs.append(({"src": SRC, "proc": f"cfgs-{'rev' if rev else 'fwd'}", "walk": -1, "cfgs": cfgs2, "inputs": rich + hx[:30], "ks": [10],
+                      "mode": "seq", "reverse": rev}, "5"))
     jobs.append(({"src": SRC, "proc": "thr", "walk": 5, "cfgs": {"default": ""}, "inputs": hx[:60], "ks": [10, 2],
                   "mode": "threads", "threads": 8, "n": 25 if tier == "quick" else 200}, "7"))
     jobs.append(({"src": SRC, "proc": "thr2", "walk": 9, "cfgs": {"custom": cdir}, "inputs": hx[:60], "ks": [10, 1],
@@ -91,6 +100,9 @@ def run(prop: str, tier: str) -> int:
     with ThreadPoolExecutor(NCPU) as ex:
         outs = list(ex.map(lambda j: worker(*j), jobs))
     events = [e for o in outs for e in o]
+    for e in events:      # "default-again" is the default configuration built a second time in the same process
+        if e.get("ev") == "NewScanner" and e["cfg"] in alias:
+            e["cfg"] = alias[e["cfg"]]
     # CLI stdout across hash seeds
     cli_inputs = inputs[: 4 if tier == "quick" else 20]
     cjobs = []
